@@ -208,9 +208,10 @@ def run(ch: Choices, opts: Dict[str, Any]) -> Dict[str, Any]:
         bump(probes, "depth-3")
     bump(faults, "flush-period-k", 1)
     h = hashlib.blake2b(repr((history, script, k_flush)).encode(), digest_size=10).hexdigest()
+    dg = hashlib.blake2b(repr((qm.log, sorted(node.arrays(conn.app_id).items()) if conn.app_id in node.ex._app_arrays else None)).encode(), digest_size=10).hexdigest()
     nontrivial = n_ctl >= 16 and n_flush >= 3
     return {
-        "digest": h, "fingerprint": h, "nontrivial": bool(nontrivial), "events": len(history), "sim_ns": 0,
+        "digest": dg, "fingerprint": h, "nontrivial": bool(nontrivial), "events": len(history), "sim_ns": 0,
         "faults": faults, "probes": probes, "calm": calm,
         "sample": {"k_flush": k_flush, "ops": len(history), "control_ops": n_ctl, "flushes": n_flush,
                    "history_head": history[:12]},
